@@ -7,7 +7,9 @@ Functions under contract (real ASTs of PyMatterSim/dynamic/dynamics.py and utils
 Definitions (property statement + docs/dynamics.md), for T frames, N particles, d in {2,3}, origin n0 and end frame n1 > n0:
   raw displacement         r_i   = x_i(n1) - x_i(n0)
   (only wrapped coords)    D_i   = remove_pbc(r_i; cell of frame n0, ppp)             -- contract of C02 (pbc_spec_row)
-  (neighbour file)         D'_i  = D_i - (1/cn_i) sum_{t<cn_i} D_{nl(n0; i, 1+t)}      -- neighbour list of the ORIGIN frame
+  (neighbour file)         D'_i  = D_i - (1/cn_i) sum_{t<cn_i} D_{nl(n0; i, 1+t)}      -- neighbour list of the ORIGIN frame:
+                           nl(n0; ., .) = record n0 of the neighbour file as read_neighbors delivers it with Nmax = max_neighbors
+                           (class NbFile; established by __init__, used by relaxation / sq4 through the same spec functions)
   selection                sel_i = condition[n0, i] (all particles when no condition), N_sel = #sel
   F(n0,n1)  = (1/(d N_sel)) sum_{i in sel} sum_axis cos(q_i D'_{i,axis}),   q_i = qconst / diameter_i
   Q(n0,n1)  = (1/N_sel) #{ i in sel : |D'_i|^2 < a2_i }   ('>' for fast),   a2_i = (a diameter_i)^2
@@ -32,25 +34,43 @@ RU = "PyMatterSim.reader.reader_utils"
 FUNCS = "PyMatterSim.utils.funcs"
 
 NOT_DECIDED = [
-    "Dynamics.sq4: the content of the per-frame tables (that conditional_sq returns the structure factor of the subset it is given) is the "
-    "callee contract of conditional_sq (C13, proved there); here it is an uninterpreted table per origin, and the default wave-vector set is "
-    "an opaque array whose defining arguments (ndim, numofq = int(2 qrange / min 2pi/L) of frame 0, onlypositive=False) are checked; "
-    "origin frames whose slow (fast, selected) subset is empty are outside the precondition (conditional_sq divides by sqrt(0))",
-    "the neighbour-file branch of both __init__ (open + read_neighbors once per frame / once): not symbolically executed (no file model); "
-    "it is exercised concretely by the replays of the cage cases only (validation, not proof)",
+    "Dynamics.sq4: the table of every origin frame is now the one C13's contract of conditional_sq specifies (built from C13's spec functions "
+    "sq_q / sq_mode_sum: round8(|sum_i [mobile_i] exp(-i q_m.r_i)|^2 / N_mobile) averaged over equal round8(|q_m|)); what stays outside: the "
+    "default wave-vector set is an opaque integer array whose defining arguments (ndim, numofq = int(2 qrange / min 2pi/L) of frame 0, "
+    "onlypositive=False) are checked (its content: C04, bounded there); the group keys K_n(g) of the |q| column are the relational result "
+    "of pandas groupby (C13), and the number of distinct |q| is taken to be the same for every origin frame (constant box: otherwise pandas "
+    "aligns tables of different length, outside the statement); origin frames whose slow (fast, selected) subset is empty and an empty "
+    "wave-vector set are outside the precondition (conditional_sq divides by sqrt(0) / C13 requires nq >= 1)",
+    "the neighbour file itself: __init__ is proved against the callee contract of read_neighbors (C05, re-verified here) with the handle's "
+    "position counted in records; that record p starts at line p (1 + N) of the text (all records have N rows) is the glue between C05's "
+    "'handle advanced by 1 + nparticle lines' and the record counter, not an obligation; a file with fewer records than frames is outside "
+    "the precondition (read_neighbors raises on the empty line)",
     "int()/round() of floating quotients and the floating-point accuracy of the averages (A1: floats are reals); comparisons |D|^2 < a2 exactly at the cutoff",
-    "the statement's N in chi4 when a per-frame selection changes its size from frame to frame (the contract fixes N = size of the "
-    "selection in the first frame, which is the statement's N whenever the size is constant)",
+    "chi4 when a per-frame selection changes its size from origin to origin: neither the statement (one N) nor docs/dynamics.md eq. (3) "
+    "(N^-1 (<W^2> - <W>^2) with the non-averaged overlap W) defines N there; the code multiplies the variance of the overlap FRACTION by the "
+    "selection size of frame 0 (len(a2_cuts) after the loops: the last executed pair has origin 0) for every row, and the contract pins "
+    "exactly that; for a selection of constant size this is the statement's formula and, by the lemma chi4:N(<Q^2>-<Q>^2)=(1/N)(<W^2>-<W>^2), "
+    "the documented one",
     "degenerate inputs outside the statement: a particle with an empty neighbour row (cn = 0), an origin frame with an empty selection, "
     "a frame pair without any motion (alpha2 = 0/0) — excluded by preconditions, the real code returns NaN there",
-    "cal_type x coordinates x cage x condition: all 8 slow combinations and 2 fast ones (fast/xu/nocage/all, fast/x-only/cage/condition) per "
-    "dimension are proved; the other 6 fast combinations are not enumerated (the slow/fast branch is independent of the other three)",
 ]
 TRUSTED = [
     "callee contract of remove_pbc at its call sites: the result row is a function of (input row, cell of the ORIGIN frame, mask) — left "
     "uninterpreted in the relaxation units (so everything proved holds for C02.pbc_spec_row, which C02 proves for the real remove_pbc); "
     "preconditions det != 0 and ppp in {0,1}^d are obligations at the call site",
     "callee contract of cage_relative at its call sites = the spec cage_row that the unit cage_relative proves for the real body",
+    "callee contract of read_neighbors in the two __init__ units (summ_read_neighbors = the clauses C05 proves for the real body on a "
+    "neighbour-list file: coordination-number-column = min(cn, Nmax), values-shifted-by-id-origin, zero-padding, width = 1 + max row count, "
+    "int dtype, handle advanced by one record); open() returns an opaque handle at record 0, close() marks it closed (pyvc/text.py)",
+    "NL / NLwidth are defined symbols (definitional extension): NL(p,i,c) := what read_neighbors delivers for record p of the file, "
+    "NLwidth(p) := 1 + row maximum; __init__ is proved to store NL(n,.,.) as neighborlists[n], the relaxation / sq4 units read "
+    "self.neighborlists through the same functions (NbFile.nl / width / nl_array / neighborlists) and use the well-formedness of the rows "
+    "(pre_nl) by instances — justified by the lemma delivered-rows-well-formed for a well-formed file (every particle lists >= 1 id, ids "
+    "in 1..N, max_neighbors >= 1)",
+    "callee contract of conditional_sq in the sq4 unit = the table C13's unit conditional_sq[bool] proves (second result: per distinct "
+    "rounded |q| the mean of round8(|sum_i A_i exp(-i q.r_i)|^2 / N_A)), written with C13's spec functions; its preconditions (boolean "
+    "vector of length N, N_A >= 1, nq >= 1, positive box lengths) are obligations at the call site; the group-key function K_n and the "
+    "common number of groups are the relational part of that contract",
     "np.cos is an uninterpreted function (only equality of arguments is used)",
     "pandas: DataFrame(2-D array, columns=names) has column j = data[:, j]; Series.map(dict).values is the element-wise lookup",
     "quantified preconditions (every cell non-singular, every neighbour row well formed: 1 <= cn <= width-1 and ids in range, every origin "
@@ -93,6 +113,106 @@ def _memo1(f):
 # the symbolic world: one trajectory, its optional cells / neighbour lists / selection, and the definitions
 
 
+NBFILE = "neighbors.dat"
+RN_KEY = "PyMatterSim.neighbors.read_neighbors.read_neighbors"
+
+
+class NbFile:
+    """The neighbour file of a trajectory of T frames with N particles, and what read_neighbors delivers from it.
+
+    File content (uninterpreted, docs/neighbors.md layout `id cn id_1 .. id_cn`, one record = header + N rows, rows in any id order):
+      CNF(p, i)     number of ids listed in record p (p-th frame of the file, in file order) for particle i (file id i + 1)
+      NBF(p, i, t)  t-th listed id minus 1 (zero-based particle index), 0 <= t < CNF(p, i)
+    Delivered array of record p (the clauses C05 proves for the real read_neighbors: coordination-number-column,
+    values-shifted-by-id-origin, zero-padding, width), Nmax = the cap handed to read_neighbors (max_neighbors):
+      nl(p, i, 0) = min(CNF(p, i), Nmax);   nl(p, i, c) = NBF(p, i, c - 1) for 1 <= c <= nl(p, i, 0);   0 beyond
+      width(p)    = 1 + MAXC(p),  MAXC(p) = max_i nl(p, i, 0)  (relational: 0 <= MAXC(p) <= Nmax, nl(p, i, 0) <= MAXC(p) for every row)
+    NL / NLwidth are DEFINED symbols (definitional extension): NL(p, i, c) := delivered(p, i, c), NLwidth(p) := 1 + MAXC(p).
+    Dynamics.__init__ is proved to store exactly NL(n, ., .) as self.neighborlists[n]; the relaxation units take
+    self.neighborlists from the same functions (`nl`, `width`, `nl_array`, `neighborlists`)."""
+
+    def __init__(self, ctx, T, N):
+        I = z3.IntSort()
+        self.T, self.N = T, N
+        self.NLf = z3.Function("NL", I, I, I, I)
+        self.Wf = z3.Function("NLwidth", I, I)
+        self.CNF = z3.Function("CNF", I, I, I)
+        self.NBF = z3.Function("NBF", I, I, I, I)
+        self.MAXC = z3.Function("MAXC", I, I)
+        self._ctx, self._nmax = ctx, None
+
+    @property
+    def Nmax(self):
+        """the cap handed to read_neighbors (argument max_neighbors of __init__); only the file-level facts mention it"""
+        if self._nmax is None:
+            self._nmax = self._ctx.int("max_neighbors")
+        return self._nmax
+
+    # ---- the spec functions shared by __init__ (ensures) and relaxation / sq4 (value of self.neighborlists)
+    def nl(self, n, i, c):
+        return sv.SV(self.NLf(sv.znum(n), sv.znum(i), sv.znum(c)))
+
+    def width(self, n):
+        return sv.SV(self.Wf(sv.znum(n)))
+
+    def nl_array(self, n):
+        return A.new_arr((self.N, self.width(n)), lambda idx: self.nl(n, idx[0], idx[1]), "int", frame=n)
+
+    def neighborlists(self):
+        """value of Dynamics.neighborlists after __init__ with a neighbour file: one delivered array per frame, in file order"""
+        return Ref(cur().alloc(Content("list", A.SeqVal(self.T, self.nl_array))), "list")
+
+    # ---- file level
+    def cnf(self, p, i):
+        return sv.SV(self.CNF(sv.znum(p), sv.znum(i)))
+
+    def nbf(self, p, i, t):
+        return sv.SV(self.NBF(sv.znum(p), sv.znum(i), sv.znum(t)))
+
+    def maxc(self, p):
+        return sv.SV(self.MAXC(sv.znum(p)))
+
+    def delivered(self, p, i, c):
+        """element (i, c) of the array read_neighbors returns for record p (contract of C05)"""
+        cn = sv.minv(self.cnf(p, i), self.Nmax)
+        t = A.simp(sv.sub(c, 1))
+        return sv.ite(sv.cmp("==", c, 0), cn, sv.ite(sv.and_(sv.cmp(">=", t, 0), sv.cmp("<", t, cn)), self.nbf(p, i, t), 0))
+
+    def def_nl(self, p, i, c):
+        return sv.cmp("==", self.nl(p, i, c), self.delivered(p, i, c))
+
+    def def_width(self, p):
+        return sv.cmp("==", self.width(p), sv.add(1, self.maxc(p)))
+
+    def max_fact(self, p, i):
+        """relational contract of the row maximum (C05 clause `width`): bounds, and an upper bound of every row's (capped) count"""
+        m = self.maxc(p)
+        return _and(sv.cmp(">=", m, 0), sv.cmp("<=", m, sv.maxv(self.Nmax, 0)),
+                    sv.implies(_in(0, i, self.N), sv.cmp("<=", sv.minv(self.cnf(p, i), self.Nmax), m)))
+
+    def wellformed(self, p, i, t):
+        """precondition on the file: every particle of every record lists at least one neighbour, listed ids are ids of the N particles"""
+        return sv.implies(_and(_in(0, p, self.T), _in(0, i, self.N)),
+                          _and(sv.cmp(">=", self.cnf(p, i), 1), sv.implies(_in(0, t, self.cnf(p, i)), _in(0, self.nbf(p, i, t), self.N))))
+
+    def pre_nl(self, n, i, t):
+        """every delivered neighbour row is well formed: 1 <= cn <= width-1, listed ids are particle indices
+        (consequence of `wellformed`, Nmax >= 1 and the definitions: lemma delivered-rows-well-formed)"""
+        cn = self.nl(n, i, 0)
+        return sv.implies(_and(_in(0, n, self.T), _in(0, i, self.N)),
+                          _and(sv.cmp(">=", cn, 1), sv.cmp("<=", cn, sv.sub(self.width(n), 1)),
+                               sv.implies(_in(0, t, cn), _in(0, self.nl(n, i, sv.add(1, t)), self.N))))
+
+    def register_facts(self, ctx):
+        """the definitions and the file preconditions as facts instantiated at every application in a query"""
+        ctx.assume(sv.cmp(">=", self.Nmax, 1))
+        z = lambda x: sv.SV(x)   # noqa: E731
+        ctx.array_fact("NL", lambda p, i, c: sv.zb(self.def_nl(z(p), z(i), z(c))))
+        ctx.array_fact("NLwidth", lambda p: sv.zb(self.def_width(z(p))))
+        ctx.array_fact("NBF", lambda p, i, t: sv.zb(self.wellformed(z(p), z(i), z(t))))
+        ctx.array_fact("CNF", lambda p, i: sv.zb(sv.and_(self.wellformed(z(p), z(i), 0), self.max_fact(z(p), z(i)))))
+
+
 class World:
     def __init__(self, ctx, d, pbc, cage, cond, fast, log_cond=False):
         self.d, self.pbc, self.cage, self.cond, self.fast = d, pbc, cage, cond, fast
@@ -124,8 +244,8 @@ class World:
             self.ppp = A.from_nested([0] * d, "int")
         ctx.state.origin[self.ppp.sid] = "self.ppp"
         if cage:
-            self.NLf = z3.Function("NL", z3.IntSort(), z3.IntSort(), z3.IntSort(), z3.IntSort())
-            self.Wf = z3.Function("NLwidth", z3.IntSort(), z3.IntSort())
+            # self.neighborlists as Dynamics.__init__ establishes it from the neighbour file (unit DynInit, cases */nbfile)
+            self.nbfile = NbFile(ctx, T, N)
         if cond:
             if log_cond:
                 self.C = ctx.array("C", (N,), "bool", origin="condition")
@@ -145,10 +265,10 @@ class World:
         return [sv.SV(f(*args)) for f in self.PBCF]
 
     def nl(self, n, i, c):
-        return sv.SV(self.NLf(sv.znum(n), sv.znum(i), sv.znum(c)))
+        return self.nbfile.nl(n, i, c)
 
     def width(self, n):
-        return sv.SV(self.Wf(sv.znum(n)))
+        return self.nbfile.width(n)
 
     def sel(self, n, i):
         if not self.cond:
@@ -162,11 +282,9 @@ class World:
         return sv.implies(_in(0, n, self.T), sv.cmp("!=", det, 0))
 
     def pre_nl(self, n, i, t):
-        """every neighbour row is well formed: 1 <= cn <= width-1, listed ids are particle indices"""
-        cn = self.nl(n, i, 0)
-        return sv.implies(_and(_in(0, n, self.T), _in(0, i, self.N)),
-                          _and(sv.cmp(">=", cn, 1), sv.cmp("<=", cn, sv.sub(self.width(n), 1)),
-                               sv.implies(_in(0, t, cn), _in(0, self.nl(n, i, sv.add(1, t)), self.N))))
+        """every neighbour row is well formed: 1 <= cn <= width-1, listed ids are particle indices — for the arrays that __init__
+        reads from a well-formed neighbour file this is the lemma `delivered-rows-well-formed` (extra_checks)"""
+        return self.nbfile.pre_nl(n, i, t)
 
     def pre_sel(self, n):
         """every origin frame has at least one selected particle"""
@@ -232,12 +350,12 @@ class World:
         return ctx.obj(RU, "Snapshots", {"nsnapshots": self.T, "snapshots": snaps})
 
     def nl_array(self, n):
-        return A.new_arr((self.N, self.width(n)), lambda idx: self.nl(n, idx[0], idx[1]), "int", frame=n)
+        return self.nbfile.nl_array(n)
 
     def neighborlists(self):
         if not self.cage:
             return Ref(cur().alloc(Content("list", ())), "list")
-        return Ref(cur().alloc(Content("list", A.SeqVal(self.T, self.nl_array))), "list")
+        return self.nbfile.neighborlists()
 
 
 def cage_row(D, nl, i, d):
@@ -309,6 +427,39 @@ def summ_cage_relative(W):
         row = _memo1(lambda j: cage_row(D, lambda jj, c: cr((jj, c)), j, d))
         return A.new_arr(RII.shape, lambda idx: A._pick(row(idx[0]), idx[1]), "float")
     return f
+
+
+def summ_read_neighbors(F, nrecords):
+    """callee contract of read_neighbors(f, nparticle, Nmax) on the neighbour-list file F (proved for the real body by C05's unit
+    read_neighbors[neighborlist], which is re-verified with this check):
+    requires  f is an open handle of the neighbour file, opened for reading, standing at a record boundary with a record left
+              (the handle's abstract position counts the records consumed: C05 `handle-advanced-by-1+nparticle`),
+              nparticle = rows per record of the file, Nmax = the cap the delivered arrays are specified for (max_neighbors);
+    ensures   a fresh int array (nparticle, 1 + MAXC(p)) holding record p = position of the handle: F.delivered(p, i, c);
+              the handle stands at record p + 1."""
+    def rn(interp, args, kwargs):
+        vals = dict(zip(["f", "nparticle", "Nmax"], args))
+        vals.update(kwargs)
+        f, npart, nmax = vals.get("f"), vals.get("nparticle"), vals.get("Nmax", 200)
+        st = cur()
+        cell = st.heap.get(f.sid) if isinstance(f, Ref) else None
+        okh = cell is not None and cell.kind == "file" and cell.data.get("mode") == "r" and cell.data.get("line_fn") is None
+        st.require(bool(okh), "call:read_neighbors:pre:f-is-a-file-handle-opened-for-reading")
+        if not okh:
+            raise sv.EngineError("read_neighbors called with something that is not a readable file handle")
+        st.require(cell.data.get("path") == NBFILE, "call:read_neighbors:pre:handle-of-the-neighbour-file")
+        st.require(not cell.data.get("closed"), "call:read_neighbors:pre:handle-open")
+        if npart is None:
+            st.require(False, "call:read_neighbors:pre:nparticle-given")
+            raise sv.EngineError("read_neighbors without nparticle")
+        st.require(sv.cmp("==", npart, F.N), "call:read_neighbors:pre:nparticle=rows-per-record")
+        st.require(sv.cmp("==", nmax, F.Nmax), "call:read_neighbors:pre:Nmax=max_neighbors")
+        pos = cell.data["pos"]
+        st.require(_in(0, pos, nrecords), "call:read_neighbors:pre:a-record-is-left-in-the-file")
+        st.heap[f.sid] = Content("file", dict(cell.data, pos=A.simp(sv.add(pos, 1))), cell.meta)
+        st.events.append(("store", f.sid, st.where, list(st.pc)))
+        return A.new_arr((F.N, A.simp(sv.add(1, F.maxc(pos)))), lambda idx: F.delivered(pos, idx[0], idx[1]), "int")
+    return rn
 
 
 # ------------------------------------------------------------------------------------------------------
@@ -392,9 +543,54 @@ def wrapped_equals_unwrapped():
     return obs
 
 
+def nbfile_lemmas():
+    """delivered-rows-well-formed: for a well-formed neighbour file (every particle of every record lists >= 1 id, listed ids are ids
+    of the N particles) and a cap max_neighbors >= 1, every row of every array that read_neighbors delivers — i.e. of every
+    self.neighborlists[n] as __init__ establishes it — satisfies the precondition of cage_relative: 1 <= cn <= width - 1 and the
+    first cn entries are particle indices.  This is the fact `pre_nl` that the relaxation / sq4 units use by instances."""
+    class _C:
+        int = staticmethod(sv.integer)
+    T, N = sv.integer("T"), sv.integer("N")
+    F = NbFile(_C, T, N)
+    p, i, t = sv.integer("p"), sv.integer("i"), sv.integer("t")
+    t1 = sv.add(1, t)
+    hyp = _and(sv.cmp(">=", F.Nmax, 1), F.def_nl(p, i, 0), F.def_nl(p, i, t1), F.def_width(p), F.wellformed(p, i, t), F.max_fact(p, i))
+    return [("lemma:delivered-rows-well-formed(file-well-formed=>precondition-of-cage_relative)", sv.implies(hyp, F.pre_nl(p, i, t)))]
+
+
+def chi4_lemmas():
+    """chi4 in the two textual forms.  The statement writes chi4 = N (<Q^2> - <Q>^2) with Q the overlap FRACTION; docs/dynamics.md eq. (3)
+    writes chi4 = N^-1 (<Q^2> - <Q>^2) 'in which Q(t) should be the non-averaged value', i.e. the overlap COUNT W = N Q.  For a selection of
+    constant size c (W(n0) = c q(n0) for every origin) the two coincide:
+        c (<q^2> - <q>^2) = (1/c) (<W^2> - <W>^2),     <x> = (1/M) sum_{n0 < M} x(n0).
+    Proved for an uninterpreted per-origin fraction q: linearity of the origin sum by induction on the number of origins M (base, step),
+    then a rational identity.  (For a selection whose size changes from origin to origin neither text defines N; see NOT_DECIDED.)"""
+    M, c = sv.integer("M"), sv.real("c")
+    fq = z3.Function("qfrac", z3.IntSort(), z3.RealSort())
+
+    def q(n):
+        return sv.SV(fq(sv.znum(n)))
+
+    def w(n):
+        return sv.mul(c, q(n))
+    S1 = lambda m: Sum(0, m, q)                                   # noqa: E731
+    S2 = lambda m: Sum(0, m, lambda n: sv.mul(q(n), q(n)))        # noqa: E731
+    W1 = lambda m: Sum(0, m, w)                                   # noqa: E731
+    W2 = lambda m: Sum(0, m, lambda n: sv.mul(w(n), w(n)))        # noqa: E731
+    lin = lambda m: _and(sv.cmp("==", W1(m), sv.mul(c, S1(m))), sv.cmp("==", W2(m), sv.mul(sv.mul(c, c), S2(m))))   # noqa: E731
+    M1 = sv.add(M, 1)
+    a, b, n_ = sv.real("sumq2"), sv.real("sumq"), sv.real("norig")
+    stmt = sv.mul(c, sv.sub(sv.div(a, n_), sv.mul(sv.div(b, n_), sv.div(b, n_))))
+    docs = sv.div(sv.sub(sv.div(sv.mul(sv.mul(c, c), a), n_), sv.mul(sv.div(sv.mul(c, b), n_), sv.div(sv.mul(c, b), n_))), c)
+    return [("lemma:chi4:count-sums=c.fraction-sums:base(M=0)", lin(0)),
+            ("lemma:chi4:count-sums=c.fraction-sums:step(M->M+1)", sv.implies(_and(sv.cmp(">=", M, 0), lin(M)), lin(M1))),
+            ("lemma:chi4:N(<Q^2>-<Q>^2)-of-fractions=(1/N)(<W^2>-<W>^2)-of-counts(constant-selection-size)",
+             sv.implies(_and(sv.cmp("!=", c, 0), sv.cmp("!=", n_, 0)), sv.cmp("==", stmt, docs)))]
+
+
 def extra_checks(tier, seed, repo):
     from pyvc.vc import prove_lemmas
-    return {"obligations": prove_lemmas("C06", lemmas()) + wrapped_equals_unwrapped()}
+    return {"obligations": prove_lemmas("C06", lemmas() + nbfile_lemmas() + chi4_lemmas()) + wrapped_equals_unwrapped()}
 
 
 # ------------------------------------------------------------------------------------------------------
@@ -410,6 +606,12 @@ def _parse(case):
 QUANT = [("isf", "F"), ("Qt", "Q"), ("msd", "M2")]
 
 
+def _relaxation_cases():
+    """the full product the property quantifies over: d x {slow, fast} x {xu, x-only} x {nocage, cage} x {all, condition}"""
+    return [f"d={d}/{mode}/{coords}/{cg}/{cd}" for d in (2, 3) for mode in ("slow", "fast") for coords in ("xu", "x-only")
+            for cg in ("nocage", "cage") for cd in ("all", "condition")]
+
+
 class DynRelaxation(Unit):
     module = MOD
     qualname = "Dynamics.relaxation"
@@ -418,15 +620,7 @@ class DynRelaxation(Unit):
     loop_opts = {"cond_acc": "scatter-first"}    # a[nn - 1] += x in the inner loop: one writer iteration per element
 
     def cases(self):
-        out = []
-        for d in (2, 3):
-            for coords in ("xu", "x-only"):
-                for cg in ("nocage", "cage"):
-                    for cd in ("all", "condition"):
-                        out.append(f"d={d}/slow/{coords}/{cg}/{cd}")
-            out.append(f"d={d}/fast/xu/nocage/all")
-            out.append(f"d={d}/fast/x-only/cage/condition")
-        return out
+        return _relaxation_cases()
 
     def setup(self, ctx, case):
         d, fast, pbc, cage, cond = _parse(case)
@@ -517,15 +711,7 @@ class LogRelaxation(Unit):
     timeout = 20
 
     def cases(self):
-        out = []
-        for d in (2, 3):
-            for coords in ("xu", "x-only"):
-                for cg in ("nocage", "cage"):
-                    for cd in ("all", "condition"):
-                        out.append(f"d={d}/slow/{coords}/{cg}/{cd}")
-            out.append(f"d={d}/fast/xu/nocage/all")
-            out.append(f"d={d}/fast/x-only/cage/condition")
-        return out
+        return _relaxation_cases()
 
     def setup(self, ctx, case):
         d, fast, pbc, cage, cond = _parse(case)
@@ -603,11 +789,12 @@ class _Init(Unit):
     cls = None
 
     def cases(self):
-        return [f"d={d}/{w}" for d in (2, 3) for w in ("xu+x", "xu-only", "x-only")]
+        return [f"d={d}/{w}{nb}" for d in (2, 3) for w in ("xu+x", "xu-only", "x-only") for nb in ("", "/nbfile")]
 
     def setup(self, ctx, case):
         d = int(case[2])
         which = case.split("/")[1]
+        nbfile = case.endswith("/nbfile")
         T, N = ctx.int("T"), ctx.int("N")
         ctx.assume(T >= 2)
         ctx.assume(N >= 1)
@@ -637,12 +824,26 @@ class _Init(Unit):
         # lazily evaluated elements (self.time is built from a comprehension over the snapshot list) are read inside the range
         ctx.assume(_in(0, k, sv.sub(T, 1)))
         ctx.assume(_in(0, i, N))
-        inp = dict(d=d, which=which, T=T, T2=T2, N=N, xu=xu, x=x, TS=TS, PT=PT, p=p, ppp=ppp, dia=dia, a=a, dt=dt, self_=self_, k=k, i=i)
-        return [self_], dict(xu_snapshots=xu, x_snapshots=x, dt=dt, ppp=ppp, diameters=ctx.pydict(dia), a=a, cal_type="slow", neighborfile="", max_neighbors=30), inp
+        inp = dict(d=d, which=which, T=T, T2=T2, N=N, xu=xu, x=x, TS=TS, PT=PT, p=p, ppp=ppp, dia=dia, a=a, dt=dt, self_=self_, k=k, i=i, nbfile=nbfile)
+        maxnb = 30
+        if nbfile:
+            # the neighbour file of this trajectory: one record per frame (at least T records), N rows per record
+            F = NbFile(ctx, T, N)
+            F.register_facts(ctx)
+            maxnb = F.Nmax
+            TF = ctx.int("records_in_file")
+            ctx.assume(sv.cmp(">=", TF, T))
+            ctx.interp.summaries = {RN_KEY: summ_read_neighbors(F, TF)}
+            inp.update(F=F, n=ctx.int("n"), c=ctx.int("c"))
+        return [self_], dict(xu_snapshots=xu, x_snapshots=x, dt=dt, ppp=ppp, diameters=ctx.pydict(dia), a=a, cal_type="slow",
+                             neighborfile=NBFILE if nbfile else "", max_neighbors=maxnb), inp
 
     def clause_names(self, case):
-        return ["ndim=len(ppp)", "dynamics-use-xu-when-given-else-x", "PBC-removal-iff-only-wrapped-coordinates", "x-kept-for-S4-only-when-both-given",
-                "time[k]=(ts[k+1]-ts[0])*dt", "diameters[i]=map[type_i]", "a2_cuts[i]=(a*diameter_i)^2", "no-neighbour-lists-without-file"]
+        names = ["ndim=len(ppp)", "dynamics-use-xu-when-given-else-x", "PBC-removal-iff-only-wrapped-coordinates", "x-kept-for-S4-only-when-both-given",
+                 "time[k]=(ts[k+1]-ts[0])*dt", "diameters[i]=map[type_i]", "a2_cuts[i]=(a*diameter_i)^2"]
+        if case.endswith("/nbfile"):
+            return names + self.file_clauses
+        return names + ["no-neighbour-lists-without-file"]
 
     def ensures(self, ctx, case, inp, out):
         d, which, T, N = inp["d"], inp["which"], inp["T"], inp["N"]
@@ -669,7 +870,31 @@ class _Init(Unit):
         oka = isinstance(a2, A.Arr) and a2.ndim == 1 and A.dim_eq_syntactic(a2.shape[0], N)
         g_a2 = sv.implies(_in(0, i, N), sv.cmp("==", a2.get((i,)), sv.mul(sv.mul(inp["a"], want), sv.mul(inp["a"], want)))) if oka else False
         yield "a2_cuts[i]=(a*diameter_i)^2", g_a2
-        yield "no-neighbour-lists-without-file", self.no_lists(o.get("neighborlists"))
+        if inp["nbfile"]:
+            yield from self.file_ensures(inp, out, o.get("neighborlists"))
+        else:
+            yield "no-neighbour-lists-without-file", self.no_lists(o.get("neighborlists"))
+
+    @staticmethod
+    def _handles(out):
+        """the read handles that exist in the final state (every open() allocates one)"""
+        return [c.data for c in out.state.heap.values() if c.kind == "file" and isinstance(c.data, dict) and c.data.get("mode") == "r"]
+
+    def handle_clause(self, out, nread):
+        """exactly one handle exists, it belongs to the neighbour file, `nread` records were consumed from it, it is closed"""
+        hs = self._handles(out)
+        if len(hs) != 1 or hs[0].get("path") != NBFILE or not hs[0].get("closed"):
+            return False
+        return sv.cmp("==", hs[0]["pos"], nread)
+
+    @staticmethod
+    def same_as_spec(arr, F, n, inp):
+        """arr is the delivered array of record n: shape (N, width(n)), int, element (i, c) = nl(n, i, c) at an arbitrary (i, c)"""
+        if not (isinstance(arr, A.Arr) and arr.ndim == 2 and arr.dtype == "int"):
+            return False
+        i, c = inp["i"], inp["c"]
+        return _and(sv.cmp("==", arr.shape[0], F.N), sv.cmp("==", arr.shape[1], F.width(n)),
+                    sv.implies(_and(_in(0, i, F.N), _in(0, c, F.width(n))), sv.cmp("==", arr.get((i, c)), F.nl(n, i, c))))
 
     def raises(self, ctx, case, inp, out):
         if out.exc != "ValueError":
@@ -687,6 +912,18 @@ class _Init(Unit):
 class DynInit(_Init):
     qualname = "Dynamics.__init__"
     cls = "Dynamics"
+    file_clauses = ["neighbour-lists:one-per-frame", "neighbour-lists[n]=record-n-of-the-file-as-read_neighbors-delivers-it(Nmax=max_neighbors)",
+                    "neighbour-file:one-handle/T-records-read-in-file-order/closed"]
+
+    def file_ensures(self, inp, out, v):
+        F, T, n = inp["F"], inp["T"], inp["n"]
+        ok = isinstance(v, Ref) and v.kind == "list" and isinstance(v.content, A.SeqVal)
+        yield self.file_clauses[0], (sv.cmp("==", v.content.length, T) if ok else False)
+        if ok:
+            yield self.file_clauses[1], sv.implies(_in(0, n, T), self.same_as_spec(v.content.fn(n), F, n, inp))
+        else:
+            yield self.file_clauses[1], False
+        yield self.file_clauses[2], self.handle_clause(out, T)
 
     def no_lists(self, v):
         return isinstance(v, Ref) and v.kind == "list" and not isinstance(v.content, A.SeqVal) and len(v.content) == 0
@@ -695,6 +932,11 @@ class DynInit(_Init):
 class LogInit(_Init):
     qualname = "LogDynamics.__init__"
     cls = "LogDynamics"
+    file_clauses = ["neighbour-list=record-0-of-the-file-as-read_neighbors-delivers-it(Nmax=max_neighbors)", "neighbour-file:one-handle/one-record-read/closed"]
+
+    def file_ensures(self, inp, out, v):
+        yield self.file_clauses[0], self.same_as_spec(v, inp["F"], 0, inp)
+        yield self.file_clauses[1], self.handle_clause(out, 1)
 
     def no_lists(self, v):
         # the log variant stores an all-zero array, which relaxation() tests with .any()
@@ -714,6 +956,8 @@ def _replay_init(clsname, case, seed):
     import numpy as np
     d = int(case[2])
     which = case.split("/")[1]
+    if case.endswith("/nbfile"):
+        return _replay_init_nbfile(clsname, case, seed)
     Dm = importlib.import_module(MOD)
     cls = getattr(Dm, clsname)
     rng = np.random.default_rng(seed + 99)
@@ -764,6 +1008,107 @@ def _replay_init(clsname, case, seed):
         except ValueError:
             pass
     return {"ran": True, "failed": False, "searched": tried, "detail": "real __init__ agrees with the contract on every seeded input"}
+
+
+def _delivered_ref(rows, N, Nmax):
+    """what read_neighbors is documented to deliver for one record: rows = {particle index: [listed zero-based ids]}"""
+    import numpy as np
+    width = 1 + max(min(len(rows[i]), Nmax) for i in range(N))
+    out = np.zeros((N, width), dtype=np.int64)
+    for i in range(N):
+        c = min(len(rows[i]), Nmax)
+        out[i, 0] = c
+        for t in range(c):
+            out[i, 1 + t] = rows[i][t]
+    return out
+
+
+def _replay_init_nbfile(clsname, case, seed):
+    """the neighbour-file branch of __init__ on real files: records with rows in shuffled id order, unequal coordination
+    numbers, caps below the longest row, more records in the file than frames; one tracked handle"""
+    import builtins
+    import importlib
+    import os
+    import shutil
+    import tempfile
+
+    import numpy as np
+    d = int(case[2])
+    which = case.split("/")[1]
+    Dm = importlib.import_module(MOD)
+    cls = getattr(Dm, clsname)
+    rng = np.random.default_rng(seed + 4099)
+    tmpdir = tempfile.mkdtemp(prefix="pyvc-c06-init-")
+    tried = 0
+    handles = []
+
+    def tracking_open(*a, **k):
+        h = builtins.open(*a, **k)
+        handles.append(h)
+        return h
+    try:
+        Dm.open = tracking_open
+        for rep in range(60):
+            T, N = int(rng.integers(2, 6)), int(rng.integers(2, 7))
+            w = _random_world(rng, d, False, False, False, T, N, "log" if clsname == "LogDynamics" else "linear")
+            su = _mk_snapshots(w["pos"], w["ts"], w["ptype"], None)
+            sx = _mk_snapshots(w["pos"] + 0.5, w["ts"], w["ptype"], None)
+            ppp = rng.integers(0, 2, size=d)
+            if which == "x-only" and not ppp.any():
+                ppp[0] = 1
+            TF = T + int(rng.integers(0, 3))
+            Nmax = int(rng.choice([1, 2, 3, 30]))
+            recs = []
+            path = os.path.join(tmpdir, f"nl{rep}.dat")
+            with builtins.open(path, "w", encoding="utf-8") as f:
+                for p_ in range(TF):
+                    f.write("id     cn     neighborlist\n")
+                    rows = {}
+                    for i in rng.permutation(N):
+                        i = int(i)
+                        cn = int(rng.integers(1, min(N - 1, 5) + 1))
+                        rows[i] = [int(x) for x in rng.choice([j for j in range(N) if j != i], size=cn, replace=False)]
+                        f.write(" ".join([str(i + 1), str(cn)] + [str(j + 1) for j in rows[i]]) + "\n")
+                    recs.append(rows)
+            del handles[:]
+            kw = dict(xu_snapshots=su if which != "x-only" else None, x_snapshots=sx if which != "xu-only" else None, dt=w["dt"], ppp=ppp,
+                      diameters=w["diameters"], a=w["a"], cal_type="slow", neighborfile=path, max_neighbors=Nmax)
+            tried += 1
+            inputs = {"T": T, "N": N, "records_in_file": TF, "max_neighbors": Nmax, "file_records(zero-based ids)": [{str(k): v for k, v in r.items()} for r in recs]}
+            try:
+                o = cls(**kw)
+            except Exception as e:  # noqa
+                return {"ran": True, "failed": True, "searched": tried, "inputs": inputs, "detail": f"raises {type(e).__name__}: {e}"}
+            bad = None
+            want = [_delivered_ref(recs[n], N, Nmax) for n in range(T)]
+            if clsname == "Dynamics":
+                got = o.neighborlists
+                if not isinstance(got, list) or len(got) != T:
+                    bad = f"neighborlists has {len(got) if hasattr(got, '__len__') else '?'} entries for {T} frames"
+                else:
+                    for n in range(T):
+                        g = np.asarray(got[n])
+                        if g.shape != want[n].shape or not np.array_equal(g, want[n]) or not np.issubdtype(g.dtype, np.integer):
+                            bad = f"neighborlists[{n}] = {g.tolist()} (dtype {g.dtype}); record {n} of the file delivers {want[n].tolist()}"
+                            break
+            else:
+                g = np.asarray(o.neighborlists)
+                if g.shape != want[0].shape or not np.array_equal(g, want[0]) or not np.issubdtype(g.dtype, np.integer):
+                    bad = f"neighborlists = {g.tolist()} (dtype {g.dtype}); record 0 of the file delivers {want[0].tolist()}"
+            if bad is None and (len(handles) != 1 or not handles[0].closed or os.path.abspath(handles[0].name) != os.path.abspath(path)):
+                bad = f"{len(handles)} handle(s) opened, closed: {[h.closed for h in handles]}"
+            if bad:
+                return {"ran": True, "failed": True, "searched": tried, "from_model": False, "inputs": inputs, "detail": bad}
+    finally:
+        if "open" in vars(Dm):
+            del Dm.open
+        for h in handles:
+            try:
+                h.close()
+            except Exception:  # noqa
+                pass
+        shutil.rmtree(tmpdir, ignore_errors=True)
+    return {"ran": True, "failed": False, "searched": tried, "detail": "real __init__ stores what the file's records deliver, frame by frame, through one handle that is closed"}
 
 
 # ------------------------------------------------------------------------------------------------------
@@ -1126,6 +1471,7 @@ def _replay_relaxation(kind, case, clause, model, seed):
 CSQ_KEY = "PyMatterSim.static.sq.conditional_sq"
 CWV_KEY = "PyMatterSim.utils.wavevector.choosewavevector"
 SQCOLS = ["q", "Sq"]
+VALUE_C13 = "value-in-the-terms-of-C13:Sq[g]=origin-average-of-the-|q|-group-mean-of-round8(|sum_i[mobile_i]exp(-iq.r_i)|^2/N_mobile)"
 
 
 def _first_for(qualname, contains):
@@ -1143,7 +1489,11 @@ class DynSq4(Unit):
     """Dynamics.sq4(t, qrange, condition, outputfile): with lag = round(t / time[0]) (documented conversion of the time to a frame
     interval) the returned table is  (1 / (T - lag)) sum_{n < T - lag} S_n,  S_n = second result of
     conditional_sq(frame n of x_snapshots if given else of the dynamics trajectory, the default wave vectors of the box of frame 0,
-    condition = [particle i is slow (fast) between frames n and n + lag] * [selected in frame n])   (callee contract of C13).
+    condition = [particle i is slow (fast) between frames n and n + lag] * [selected in frame n]), and S_n is written out with the
+    spec functions of C13's contract of conditional_sq (setup: csq_spec): row g = (K_n(g), mean over the wave vectors m with
+    round8(|q_m|) = K_n(g) of round8(|sum_i [mobile_i(n)] exp(-i q_m . r_i(n))|^2 / #mobile(n))), q_m = 2 pi n_m / L(frame n),
+    r_i(n) the positions of the frame handed to conditional_sq.  So the result is literally the structure factor of the slow
+    (fast) subset averaged over the origins.
     The frame loop accumulates a DataFrame from the number 0: written invariant, init / step obligations as for every summary."""
     module = MOD
     qualname = "Dynamics.sq4"
@@ -1180,7 +1530,7 @@ class DynSq4(Unit):
         def snapshot_of(tag):
             def f(n):
                 cls = load_module(RU).get_class("SingleSnapshot")
-                attrs = {"positions": A.getitem(W.X, n) if tag == 0 else A.new_arr((N, d), lambda idx: sv.SV(z3.Function("XS", I_, I_, I_, R_)(sv.znum(n), sv.znum(idx[0]), sv.znum(idx[1]))), "float"),
+                attrs = {"positions": A.getitem(W.X, n) if tag == 0 else A.new_arr((N, d), lambda idx: sv.SV(z3.Function("XS", I_, I_, I_, R_)(sv.znum(n), sv.znum(idx[0]), sv.znum(idx[1]))), "float"),   # = XSf below
                          "nparticle": N, "timestep": sv.SV(TAG(z3.IntVal(tag), sv.znum(n))), "particle_type": A.getitem(W.ptype, n),
                          "boxlength": A.new_arr((d,), lambda idx: sv.SV(BL(z3.IntVal(tag), sv.znum(n), sv.znum(idx[0]))), "float")}
                 if pbc:
@@ -1209,8 +1559,63 @@ class DynSq4(Unit):
         ctx.assume(G >= 0)
         M = ctx.int("nvectors")
         ctx.assume(M >= 0)
-        CS = z3.Function("CSQ", I_, I_, I_, R_)              # (origin frame, row, column) at this lag
+        CS = z3.Function("CSQ", I_, I_, I_, R_)              # (origin frame, row, column) of conditional_sq's second table at this lag
+
+        def cs(n, g, ci):
+            return sv.SV(CS(sv.znum(n), sv.znum(g), z3.IntVal(ci)))
         norig = sv.sub(T, lag)
+        ctx.assume(M >= 1)                                   # precondition of conditional_sq's contract (C13: nq >= 1)
+        # ---- the table conditional_sq returns for origin frame n, in the terms of C13's contract (contracts/C13.py, unit
+        # conditional_sq[d/bool]: clauses FFT:sum, FFT:normalisation, Sq=|sum|^2/N_A, rounded-to-8-decimals, q=|q-vector|,
+        # average:mean-of-Sq-over-equal-rounded-|q|), built from C13's own spec functions sq_q and sq_mode_sum:
+        #   rho_n(m)  = sum_i [mobile_i(n)] exp(-i q_m . r_i(n)),  q_m = 2 pi n_m / L(frame n),  N_A(n) = #mobile(n)
+        #   Sq_n(m)   = round8(|rho_n(m)|^2 / N_A(n)),  |q|_n(m) = round8(|q_m|)
+        #   row g     = (K_n(g), mean of Sq_n(m) over the m with |q|_n(m) = K_n(g)),  K_n(g) = g-th distinct |q|_n (groupby contract)
+        from contracts import C13
+        QVf = z3.Function("QV", I_, I_, I_)
+        XSf = z3.Function("XS", I_, I_, I_, R_)
+        GK = z3.Function("SQ_groupkey", I_, I_, R_)
+
+        class _QV:
+            @staticmethod
+            def get(idx):
+                return sv.SV(QVf(sv.znum(idx[0]), sv.znum(idx[1])))
+
+        class _FrameAsTraj:
+            """frame n of the trajectory handed to conditional_sq, seen as the one-frame trajectory of C13's contract"""
+            def __init__(self, n):
+                self.n = n
+
+            def bl(self, s_, c):
+                return sv.SV(BL(z3.IntVal(sq_tag), sv.znum(self.n), sv.znum(c)))
+
+            def pos(self, s_, i, c):
+                if sq_tag == 0:
+                    return W.pos(self.n, i, c)
+                return sv.SV(XSf(sv.znum(self.n), sv.znum(i), sv.znum(c)))
+
+        def c13_inp(n):
+            return dict(tr=_FrameAsTraj(n), N=N, d=d, kind="bool", el=lambda i: mobile_spec(n, i), qv=_QV)
+
+        def n_mobile(n):
+            return Sum(0, N, lambda j: sv.ite(mobile_spec(n, j), 1, 0))
+
+        def sq_row(n, m):
+            """(rounded |q_m|, rounded S(q_m)) of the subset of frame n: C13's per-wave-vector table"""
+            inp_n = c13_inp(n)
+            rho = C13.sq_mode_sum(inp_n, m)
+            raw = sv.div(sv.add(sv.mul(rho.re, rho.re), sv.mul(rho.im, rho.im)), sv.to_real(n_mobile(n)))
+            qq = _sum([sv.mul(C13.sq_q(inp_n, m, c), C13.sq_q(inp_n, m, c)) for c in range(d)])
+            return sv.round_dec(sv.sqrt(qq), 8), sv.round_dec(raw, 8)
+
+        def csq_spec(n, g, ci):
+            """element (g, ci) of the |q|-averaged table (second result) of conditional_sq for origin frame n"""
+            key = sv.SV(GK(sv.znum(n), sv.znum(g)))
+            if ci == 0:
+                return key
+            num = Sum(0, M, lambda m: sv.ite(sv.cmp("==", sq_row(n, m)[0], key), lambda: sq_row(n, m)[1], 0))
+            den = Sum(0, M, lambda m: sv.ite(sv.cmp("==", sq_row(n, m)[0], key), 1, 0))
+            return sv.div(num, den)
         # ---- callee contracts
         numofq_spec = sv.trunc(sv.div(sv.mul(qrange, 2), _min([sv.div(sv.mul(2, sv.PI), sv.SV(BL(z3.IntVal(sq_tag), z3.IntVal(0), z3.IntVal(c)))) for c in range(d)])))
         QV = {}
@@ -1223,7 +1628,6 @@ class DynSq4(Unit):
             st.require(sv.cmp("==", a.get("numofq"), numofq_spec), "call:choosewavevector:numofq=int(2.qrange/min(2pi/L))-of-frame-0-of-the-S(q)-trajectory")
             op = a.get("onlypositive", False)
             st.require(op is False or (sv.is_conc(op) and not op), "call:choosewavevector:onlypositive=False")
-            QVf = z3.Function("QV", I_, I_, I_)
             arr = A.new_arr((M, d), lambda idx: sv.SV(QVf(sv.znum(idx[0]), sv.znum(idx[1]))), "int")
             QV["sid"] = arr.sid
             return arr
@@ -1262,10 +1666,16 @@ class DynSq4(Unit):
                        "call:conditional_sq:condition=slow(fast)-between-frames-n-and-n+lag(-and-selected-in-frame-n)")
             # precondition of the unit (instance at this origin): the slow (fast, selected) subset of every origin frame is not
             # empty — conditional_sq (C13) requires at least one selected particle (it divides by sqrt of their number)
-            cnt = Sum(0, N, lambda j: sv.ite(mobile_spec(n, j), 1, 0))
+            cnt = n_mobile(n)
             st.assume(sv.implies(_in(0, n, norig), sv.cmp(">=", cnt, 1)))
             st.require(sv.cmp(">=", Sum(0, N, lambda j: sv.ite(cnd.get((j,)), 1, 0)), 1), "call:conditional_sq:pre:at-least-one-selected-particle")
-            tab = frame_table(lambda g, ci: sv.SV(CS(sv.znum(n), sv.znum(g), z3.IntVal(ci))))
+            st.require(sv.cmp(">=", qv.shape[0], 1) if isinstance(qv, A.Arr) else False, "call:conditional_sq:pre:at-least-one-wave-vector")
+            for c_ in range(d):
+                st.require(sv.cmp(">", _FrameAsTraj(n).bl(0, c_), 0), "call:conditional_sq:pre:box-lengths-positive")
+            # ensures (C13): the second table is CSQ(n, ., .) := csq_spec(n, ., .).  The loop invariant and the origin average are
+            # proved for the symbol CSQ (any table per origin); the defining equation enters where the result is stated in C13's
+            # terms (clause value-in-the-terms-of-C13, opts array_facts) — so a broken variant fails small queries quickly
+            tab = frame_table(lambda g, ci: cs(n, g, ci))
             return (None, tab)
         self.summaries = {"PyMatterSim.utils.pbc.remove_pbc": summ_remove_pbc(W), MOD + ".cage_relative": summ_cage_relative(W), CSQ_KEY: csq, CWV_KEY: cwv}
         ctx.interp.summaries = dict(self.summaries)
@@ -1276,7 +1686,7 @@ class DynSq4(Unit):
             var = "ave_sqresults"
 
             def inv(k):
-                return frame_table(lambda g, ci: Sum(lo, k, lambda n: sv.SV(CS(sv.znum(n), sv.znum(g), z3.IntVal(ci)))))
+                return frame_table(lambda g, ci: Sum(lo, k, lambda n: cs(n, g, ci)))
 
             def run(kv, val, extra):
                 fr = Frame(frame.module, dict(frame.env), frame.fname)
@@ -1317,13 +1727,19 @@ class DynSq4(Unit):
         ln = _first_for(self.qualname, "conditional_sq")
         ctx.interp.loop_hints[(f"{MOD}.{self.qualname}", "for", ln)] = hint
         of = "s4.csv" if fil else ""
-        inp = dict(W=W, T=T, G=G, CS=CS, lag=lag, norig=norig, of=of, g=ctx.int("g"),
+        def cs_def(n, g, ci):
+            """callee postcondition of conditional_sq (C13) as a fact about the symbol CSQ, instantiated per application"""
+            n, g = sv.SV(n), sv.SV(g)
+            if z3.is_int_value(ci):
+                return sv.zb(sv.cmp("==", sv.SV(CS(n.t, g.t, ci)), csq_spec(n, g, ci.as_long())))
+            return z3.BoolVal(True)
+        inp = dict(W=W, T=T, G=G, CS=cs, CSspec=csq_spec, CSdef=cs_def, lag=lag, norig=norig, of=of, g=ctx.int("g"),
                    watch=[W.X.sid, W.tm.sid, W.diam.sid, W.a2.sid, W.ppp.sid] + ([W.HM.sid] if pbc else []) + ([W.C.sid] if cond else []))
         return [self_, t, qrange, (W.C if cond else None), of], {}, inp
 
     def clause_names(self, case):
-        return ["result:table-of-q-and-Sq", "value=average-over-the-T-lag-origins-of-the-structure-factor-of-the-slow(fast)-subset", "file=returned",
-                "frame-inputs-not-written"]
+        return ["result:table-of-q-and-Sq", "value=average-over-the-T-lag-origins-of-the-structure-factor-of-the-slow(fast)-subset", VALUE_C13,
+                "file=returned", "frame-inputs-not-written"]
 
     def ensures(self, ctx, case, inp, out):
         from pyvc.pandas_model import df_content
@@ -1337,9 +1753,18 @@ class DynSq4(Unit):
         inr = _in(0, g, G)
         eqs = []
         for ci, c in enumerate(SQCOLS):
-            want = sv.div(Sum(0, norig, lambda n: sv.SV(CS(sv.znum(n), sv.znum(g), z3.IntVal(ci)))), norig)
+            want = sv.div(Sum(0, norig, lambda n: CS(n, g, ci)), norig)
             eqs.append(sv.cmp("==", cols[c].get((g,)), want))
         yield "value=average-over-the-T-lag-origins-of-the-structure-factor-of-the-slow(fast)-subset", sv.implies(inr, sv.and_(*eqs))
+        # the same value with the per-origin table written out as C13's contract of conditional_sq specifies it
+        # (the origin sums of the symbol CSQ and of its definition coincide: extensionality of the origin sum, with the callee's
+        # postcondition CSQ(n, g, .) = csq_spec(n, g, .) at the witness origin; together with the clause above this is the value)
+        eqs2 = []
+        for ci, c in enumerate(SQCOLS):
+            eqs2.append(sv.cmp("==", Sum(0, norig, lambda n: CS(n, g, ci)), Sum(0, norig, lambda n: inp["CSspec"](n, g, ci))))
+        X = z3.Int("origin!witness")
+        template = z3.And(*[inp["CSdef"](X, g.t, z3.IntVal(ci)) for ci in range(len(SQCOLS))])
+        yield (VALUE_C13, sv.and_(*eqs2), {"timeout": 8, "solver_opts": {"unfold": False, "rounds": 2, "pointwise": [lambda x: z3.substitute(template, (X, x))]}})
         writes = [e for e in out.state.trace if e[0] == "to_csv"]
         if not inp["of"]:
             yield "file=returned", len(writes) == 0
@@ -1459,9 +1884,9 @@ def _replay_sq4(case, clause, model, seed):
 UNITS = [DynRelaxation(), LogRelaxation(), DynInit(), LogInit(), Alpha2Factor(), CageRelative(), DynSq4()]
 # callee contracts of other properties used at call sites: their units are re-verified with this check
 from contracts.common import callee_units as _callee_units   # noqa: E402
-UNITS = UNITS + _callee_units([('C02', None)], UNITS)
+UNITS = UNITS + _callee_units([('C02', None), ('C05', {'read_neighbors'}), ('C13', {'conditional_sq'})], UNITS)
 
 MANIFEST = {
-    "text": 'Dynamics.relaxation and LogDynamics.relaxation (real ASTs, re-read every run), symbolic frame number T >= 2 and particle number N >= 1, d in {2,3}, for coordinates xu / x-only (PBC removal through remove_pbc with the cell of the origin frame, any mask with a periodic axis), with/without cage-relative neighbour lists (list of the origin frame), with/without a per-frame boolean selection, slow (8 combinations) and fast (2 combinations) per dimension: at an arbitrary row k, t = time[k]; isf, Qt, msd are the averages over ALL origins n0 = 0..T-2-k of the mean of cos(q_i D) over selected particles and axes (q_i = qconst/diameter_i), of the fraction with |D|^2 < a2_i (> for fast) and of the mean |D|^2; X4_Qt = N_sel(<Q^2>-<Q>^2); alpha2 = c_d <M4>/<M2>^2 - 1 with c_3 = 3/5, c_2 = 1/2; the log variant returns the same pair quantities with the first frame as only origin and X4_Qt = 0. The nested (end frame, lag) loops are summarised by inductively checked scatter-add summaries; two generic lemmas proved by induction on the frame number (number of origins = T-1-k; sum over end frames = sum over origins) turn the accumulated sums into the origin averages of the statement. Also under contract: alpha2factor (3/5, 1/2, ValueError otherwise), cage_relative (row i = displacement minus the mean over its cn_i listed neighbours, symbolic N and list width), both __init__ without neighbour file (xu preferred, PBC flag iff only wrapped coordinates, ValueError for unequal frame numbers / no periodic axis, time[k] = (ts[k+1]-ts[0]) dt, diameters = map of the first frame types, a2_cuts = (a diameter)^2), and the lemma wrapped = unwrapped on the contract of remove_pbc (lattice-shifted displacement within half a cell is restored, every mask, d = 2, 3). Inputs are never written.',
-    "note": 'floats as reals (A1); remove_pbc enters through its C02 contract (uninterpreted row function + call-site preconditions), cage_relative through the contract its own unit proves; np.cos uninterpreted; pandas DataFrame/Series.map contracts assumed; quantified preconditions used by instances; Dynamics.sq4 under contract with callee contracts of conditional_sq / choosewavevector (lag = round(t/time[0]), mobility condition per origin, origin average, file); NOT under contract: the neighbour-file branch of __init__ (only replayed concretely); 6 of the 8 fast combinations per dimension are not enumerated; N of chi4 is the selection size of the first frame',
+    "text": 'Dynamics.relaxation and LogDynamics.relaxation (real ASTs, re-read every run), symbolic frame number T >= 2 and particle number N >= 1, d in {2,3}, for the full product {slow, fast} x coordinates {xu, x-only} (PBC removal through remove_pbc with the cell of the origin frame, any mask with a periodic axis) x {without, with} cage-relative neighbour lists (list of the origin frame) x {all particles, per-frame boolean selection} = 16 combinations per dimension and class: at an arbitrary row k, t = time[k]; isf, Qt, msd are the averages over ALL origins n0 = 0..T-2-k of the mean of cos(q_i D) over selected particles and axes (q_i = qconst/diameter_i), of the fraction with |D|^2 < a2_i (> for fast) and of the mean |D|^2; X4_Qt = N_sel(<Q^2>-<Q>^2); alpha2 = c_d <M4>/<M2>^2 - 1 with c_3 = 3/5, c_2 = 1/2; the log variant returns the same pair quantities with the first frame as only origin and X4_Qt = 0. The nested (end frame, lag) loops are summarised by inductively checked scatter-add summaries; two generic lemmas proved by induction on the frame number (number of origins = T-1-k; sum over end frames = sum over origins) turn the accumulated sums into the origin averages of the statement. Both __init__ (xu preferred, PBC flag iff only wrapped coordinates, ValueError for unequal frame numbers / no periodic axis, time[k] = (ts[k+1]-ts[0]) dt, diameters = map of the first frame types, a2_cuts = (a diameter)^2), without and WITH a neighbour file: one handle is opened for reading, read_neighbors (callee contract of C05) is called once per frame (Dynamics: T records, neighborlists[n] = record n of the file as delivered with Nmax = max_neighbors: cn = min(listed, Nmax), zero-based ids, zero padding, width 1 + max cn; LogDynamics: record 0 only, which is the list of its only origin frame), the handle is closed; the relaxation and sq4 units take self.neighborlists from the same spec functions, and the lemma delivered-rows-well-formed derives the precondition of cage_relative from a well-formed file, so the chain file -> __init__ -> relaxation -> cage_relative is closed by contracts. alpha2factor (3/5, 1/2, ValueError otherwise), cage_relative (row i = displacement minus the mean over its cn_i listed neighbours, symbolic N and list width), the lemma wrapped = unwrapped on the contract of remove_pbc (lattice-shifted displacement within half a cell is restored, every mask, d = 2, 3), and the lemma that N(<Q^2>-<Q>^2) on overlap fractions equals the documented N^-1(<W^2>-<W>^2) on overlap counts for a selection of constant size. Dynamics.sq4: lag = round(t/time[0]), the mobility mask of every origin frame (checked at the conditional_sq call), the frame and wave vectors handed over, and the result = average over the T-lag origins of the table that C13 specifies for conditional_sq, written with C13 spec functions: per distinct rounded |q| the mean of round8(|sum_i [mobile_i] exp(-i q.r_i)|^2 / N_mobile); saved file = returned. Inputs are never written.',
+    "note": 'floats as reals (A1); remove_pbc enters through its C02 contract (uninterpreted row function + call-site preconditions), cage_relative through the contract its own unit proves, read_neighbors through the clauses C05 proves (handle position counted in records), conditional_sq through the table C13 proves (group keys relational, same number of distinct |q| for every origin frame, non-empty wave-vector set and non-empty subset required); np.cos uninterpreted; pandas DataFrame/Series.map contracts assumed; quantified preconditions used by instances; N of chi4 is the selection size of the first frame (the statement and the docs define one N only: constant selection size); the default wave-vector set is opaque here (C04)',
 }
